@@ -23,9 +23,6 @@ Definition entry_ok (e : string * (Z * Z)) : bool :=
   && has matlab_types k (sz, if kd =? 3 then 0 else kd)
   && has js_types k (0, if kd =? 3 then 3 else 0).
 
-Definition entry_ok_except (skip : string) (e : string * (Z * Z)) : bool :=
-  String.eqb (fst e) skip || entry_ok e.
-
 Lemma tlookup_in k v t : tlookup k t = Some v -> In (k, v) t.
 Proof.
   induction t as [|[k' v'] r IH]; simpl; [discriminate|].
@@ -41,17 +38,11 @@ Proof.
   apply Z.eqb_eq in H1. apply Z.eqb_eq in H2. subst. reflexivity.
 Qed.
 
-(* the sweep over the generated table, all names but the recorded one *)
-Lemma tables_partial_sweep : forallb (entry_ok_except "signed char") parser_types = true.
+(* the sweep over the generated table: every name of parser.supported_types *)
+Lemma tables_sweep : forallb entry_ok parser_types = true.
 Proof. vm_compute. reflexivity. Qed.
 
-Lemma tables_full_sweep_fails : forallb entry_ok parser_types = false.
-Proof. vm_compute. reflexivity. Qed.
-
-Lemma signed_char_entry : In ("signed char", (1, 0)) parser_types /\ entry_ok ("signed char", (1, 0)) = false.
-Proof. split; [vm_compute; tauto|vm_compute; reflexivity]. Qed.
-
-(* what the other proofs use: for every native key the parser knows, except the recorded one *)
+(* what the other proofs use: for every native key the parser knows *)
 Record key_agrees (k : string) (sz kd : Z) : Prop := {
   ka_fmt : tlookup k parser_format_widths = Some (sz, kd);
   ka_ct : exists nm, slookup k parser_type_names = Some nm /\ tlookup nm ctype_cls_types = Some (sz, kd);
@@ -70,14 +61,10 @@ Proof.
   exists nm. split; [exact En|apply has_true; assumption].
 Qed.
 
-Lemma tables_agree k sz kd :
-  tlookup k parser_types = Some (sz, kd) -> k <> "signed char" -> key_agrees k sz kd.
+Lemma tables_agree k sz kd : tlookup k parser_types = Some (sz, kd) -> key_agrees k sz kd.
 Proof.
-  intros H Hk. apply tlookup_in in H.
-  pose proof (proj1 (forallb_forall _ _) tables_partial_sweep _ H) as E.
-  unfold entry_ok_except in E. simpl in E. apply orb_true_iff in E. destruct E as [E|E].
-  - apply String.eqb_eq in E. contradiction.
-  - apply entry_ok_agrees. exact E.
+  intros H. apply tlookup_in in H.
+  apply entry_ok_agrees. exact (proj1 (forallb_forall _ _) tables_sweep _ H).
 Qed.
 
 (* sizes of the parser's table (C11_natives_wf restated for lookups) *)
